@@ -15,7 +15,10 @@ RULE = (
     "every successful end state reached by edit histories (as in C01) is followed by a restart "
     "with nothing changed, and by every non-empty subset of plain source files edited (content, "
     "touch only, mode) and a rebuild; non-trivial: a state reached after at least one edit, or a "
-    "source edit that executed at least one command"
+    "source edit that executed at least one command; schedule part: for dedicated projects the "
+    "rebuild after every single source edit is explored under four base schedules, two job counts "
+    "and every schedule with at most one deviation (thorough: two), every executed command must "
+    "lie in the cone"
 )
 ASSUMPTIONS = [
     "no-op rebuilds are restarts here; the watch-mode variant is tied to restarts by C14",
@@ -87,9 +90,93 @@ def plain_sources(files):
                   and not c.startswith(SHEBANG))
 
 
+# projects of the schedule part: (family, knobs)
+SCHED_PROJECTS = [
+    ("f_latestatic", {}), ("f_latestatic", {"gap": 0}), ("f_subplan", {}), ("f_amend", {}),
+    ("f_amend", {"extra": "built"}), ("f_nested", {}), ("f_chain", {}), ("f_prodcons", {}),
+]
+SCHED_POLICIES = ("thread", "fifo", "slowrep", "lifo")
+
+
+def sched_jobs(tier):
+    out = []
+    for fam, knobs in SCHED_PROJECTS:
+        files = hist.desc_files({"fam": fam, "knobs": knobs})
+        for src in plain_sources(files):
+            for policy in SCHED_POLICIES:
+                for njob in (2, 4):
+                    out.append({"part": "sched", "fam": fam, "knobs": knobs, "src": src, "policy": policy,
+                                "njob": njob, "bound": 1 if tier == "quick" else 2})
+    return out
+
+
+def orphaned_amended_static(pre, post, step):
+    """Known root cause: `step` amended a static file whose declaring plan re-ran in this build.
+    While the plan runs its declarations are orphaned; a hash check of the consumer in that window
+    sees an input missing from the digest, drops the amended information and runs the command."""
+    produced = {p for outs in pre.db_outputs.values() for p in outs}
+    for path, dyn in pre.db_inputs.get(step, []):
+        creator = pre.db_creator.get(f"file:{path}", "").removeprefix("step:")
+        if dyn and path not in produced and creator in post.started:
+            return True
+    return False
+
+
+def run_sched(spec):
+    from ..explore import explore
+
+    acc = Acc()
+    desc = {"fam": spec["fam"], "knobs": spec["knobs"]}
+    cfg = {"njob": spec["njob"], "policy": spec["policy"]}
+    files = hist.desc_files(desc)
+    src = spec["src"]
+    ref = {}
+
+    def run(prefix):
+        world, ol = hist.run_history([desc], cfg)
+        try:
+            ref["pre"] = ol[-1]
+            if ol[-1].rc_class != "success" or not ol[-1].ok():
+                raise RuntimeError(f"first build of {desc} under {cfg}: {ol[-1].rc_class} {ol[-1].fault} {ol[-1].error}")
+            world.write(src, files[src] + "more\n")
+            return hist.build(world, desc, cfg, prefix)
+        finally:
+            world.destroy()
+
+    def visit(prefix, post):
+        pre = ref["pre"]
+        acc.evaluations += 1
+        acc.transitions += post.nev
+        acc.states.add(h8([post.raw, tuple(post.started)]))
+        acc.outcomes.setdefault(h8([spec["fam"], tuple(post.started), post.rc_class]), 1)
+        if post.started:
+            acc.nontrivial.add(h8([spec["fam"], spec["knobs"], src, spec["policy"], spec["njob"], prefix]))
+        allowed = dynamic_cone(pre, post, {src})
+        extra = [s for s in post.started if s not in allowed]
+        if post.rc_class != "success" or not post.ok():
+            acc.violation(f"C04|sched|{spec['fam']}|{src}|rebuild-{post.rc_class}",
+                          {"project": desc, "edited": src, "cfg": cfg, "prefix": list(prefix),
+                           "exec": describe(post)}, {"check": "C04", **spec, "prefix": list(prefix)})
+        elif extra:
+            if all(orphaned_amended_static(pre, post, s) for s in extra):
+                key = "C04|sched|amended-static-input-orphaned-while-its-declaring-plan-reruns"
+            else:
+                key = f"C04|sched|{spec['fam']}|{src}|{','.join(sorted(set(extra)))}"
+            acc.violation(key, {"project": desc, "edited": src, "cfg": cfg, "prefix": list(prefix),
+                                "executed_outside_cone": extra, "cone": sorted(allowed),
+                                "exec": describe(post)}, {"check": "C04", **spec, "prefix": list(prefix)})
+        if len(acc.samples) < 2 and post.started:
+            acc.sample({"project": desc, "edited": src, "cfg": cfg, "prefix": list(prefix),
+                        "executed": post.started, "cone": sorted(allowed)})
+
+    n, trunc = explore(run, spec["bound"], visit)
+    acc.count("schedules", n)
+    return acc
+
+
 def jobs(tier, seed):
     depth = 2 if tier == "quick" else 3
-    out = []
+    out = sched_jobs(tier)
     for fam in FAMILIES:
         for start in starts(fam, tier):
             out.append({"start": start, "first": None, "depth": 0})
@@ -99,6 +186,8 @@ def jobs(tier, seed):
 
 
 def run_job(spec):
+    if spec.get("part") == "sched":
+        return run_sched(spec)
     acc = Acc()
     fam = spec["start"]["fam"]
 
@@ -190,4 +279,16 @@ def replay(doc):
     import json
 
     print(json.dumps(doc.get("what"), indent=1, default=str)[:8000])
+    rep = doc.get("replay") or {}
+    if rep.get("part") == "sched":
+        desc = {"fam": rep["fam"], "knobs": rep["knobs"]}
+        cfg = {"njob": rep["njob"], "policy": rep["policy"]}
+        files = hist.desc_files(desc)
+        world, ol = hist.run_history([desc], cfg)
+        world.write(rep["src"], files[rep["src"]] + "more\n")
+        post = hist.build(world, desc, cfg, rep["prefix"])
+        world.destroy()
+        for r in post.reports:
+            print("   ", r[0], r[1])
+        print("executed:", post.started, "cone:", sorted(dynamic_cone(ol[-1], post, {rep["src"]})))
     return 0
